@@ -351,7 +351,56 @@ class Gen(object):
         return self.prog
 
 
+def graph_program(rng, n=None):
+    """Probabilistic graph reachability (the classic cyclic ProbLog program)."""
+    variant = rng.randrange(4)
+    nodes = ["a", "b", "c", "d"][: (n or (3 if variant == 2 else rng.randint(3, 4)))]
+    prog = []
+    k = 0
+    edges = []
+    for x in nodes:
+        for y in nodes:
+            if x != y and rng.random() < 0.6:
+                k += 1
+                edges.append((x, y))
+                prog.append(("fact", A("w", x, y, "p%d" % k)))
+    if not edges:
+        prog.append(("fact", A("w", nodes[0], nodes[1], "p1")))
+        edges.append((nodes[0], nodes[1]))
+    prog.append(("ad", [("P", A("e", "X", "Y"))], [P(A("w", "X", "Y", "P"))]))
+    prog.append(("rule", A("path", "X", "Y"), [P(A("e", "X", "Y"))]))
+    if variant == 0:
+        prog.append(("rule", A("path", "X", "Y"), [P(A("e", "X", "Z")), P(A("path", "Z", "Y"))]))
+    elif variant == 1:
+        prog.append(("rule", A("path", "X", "Y"), [P(A("path", "X", "Z")), P(A("e", "Z", "Y"))]))
+    elif variant == 2:
+        prog.append(("rule", A("path", "X", "Y"), [P(A("path", "X", "Z")), P(A("path", "Z", "Y"))]))
+    else:
+        prog.append(("rule", A("path", "X", "Y"), [P(A("e", "Y", "X"))]))
+        prog.append(("rule", A("path", "X", "Y"), [P(A("e", "X", "Z")), P(A("path", "Z", "Y"))]))
+    for x in nodes:
+        prog.append(("fact", A("dom", x)))
+    if rng.random() < 0.4:
+        prog.append(("rule", A("unreach", "X", "Y"), [P(A("dom", "X")), P(A("dom", "Y")), N(A("path", "X", "Y"))]))
+        prog.append(("query", A("unreach", rng.choice(nodes), rng.choice(nodes))))
+    for _ in range(rng.randint(1, 3)):
+        x, y = rng.choice(nodes), rng.choice(nodes)
+        q = ("query", A("path", x, y))
+        if q not in prog:
+            prog.append(q)
+    if rng.random() < 0.3:
+        prog.append(("query", A("path", rng.choice(nodes), "Y")))
+    if rng.random() < 0.4:
+        x, y = rng.choice(nodes), rng.choice(nodes)
+        if ("query", A("path", x, y)) not in prog:
+            prog.append(("evidence", A("path", x, y), rng.random() < 0.5))
+    return prog
+
+
 def generate(seed, idx, **kw):
+    rng0 = random.Random("%s/%s/family" % (seed, idx))
+    if kw.pop("graphs", True) and rng0.random() < 0.2:
+        return graph_program(rng0)
     rng = random.Random("%s/%s" % (seed, idx))
     kw.setdefault("max_choices", 8)
     if "consts" not in kw:
